@@ -64,14 +64,12 @@ class CHECK(core.Check):
     TRUSTED = ["correspondence: storing.Share/Data/Deck run in-process against the Lean model (driver engine "
                "'share'); compared after every operation: result, stamp, keys(), items(), list(deck), len()",
                "the model describes storing.py WITH fixes/D11b-data-delattr-keeps-odict-keys.patch, "
-               "fixes/D11c-identpub-fullmatch.patch, fixes/D11d-share-setdefault-name-rule.patch and "
-               "fixes/D11f-share-insert-name-rule.patch applied",
+               "fixes/D11c-identpub-fullmatch.patch, fixes/D11d-share-setdefault-name-rule.patch, "
+               "fixes/D11f-share-insert-name-rule.patch and fixes/D11-class-attribute-names-are-not-fields.patch applied",
                "CPython attribute machinery (object.__getattribute__/__setattr__/__delattr__ on an instance "
                "whose __dict__ is an odict), the 30 names of dir(Data()) on CPython 3.12, re, deque",
                "stamps are multiples of 1/8 s (exact in binary64); field names are ASCII"]
-    PARTIAL = ["C19_field_names_public_partial: holds for histories that never name a class attribute of Data "
-               "(D11: share['_sift']=5 is accepted, bypasses keys())",
-               "C19_spew_none_iff_empty_partial: holds while no None was put on the deck with push (D11e)",
+    PARTIAL = ["C19_spew_none_iff_empty_partial: holds while no None was put on the deck with push (D11e)",
                "not modelled: non-ASCII field names (Python's \\w is Unicode), del share['__dict__'], Share."
                "sift/reorder/copy, truth/unit/owner/marks, values other than None/int/str"]
     TECHNIQUE = ("Lean 4 theorems (invariants over histories, refinement of the two-layer Data to an "
@@ -79,11 +77,10 @@ class CHECK(core.Check):
     LEVEL_TEXT = ("Proof on the model, every history: stamping rules (C19_value_update_stamp, C19_change_keeps_stamp, "
                   "C19_create_stamps_iff_added, C19_create_never_overwrites, C19_only_stampers_stamp), fields as an "
                   "insertion-ordered map (C19_fields_ordered_map_* incl. positional insert, invariant C19_sync_invariant: items() never "
-                  "raises), names shown by keys()/items() are public identifiers for EVERY history (C19_keys_public); "
-                  "deck FIFO (C19_deck_fifo), gulp ignores None (C19_gulp_ignores_none). Partial: every accepted "
-                  "field name is public only for histories that avoid Data's class attribute names "
-                  "(C19_field_names_public_partial; counterexample C19_counterexample_sift = D11) and spew returns "
-                  "None only when empty only while no None was pushed (C19_spew_none_iff_empty_partial; "
+                  "raises), every name the share holds or shows is a public identifier for EVERY history, class attribute "
+                  "names of Data included (C19_field_names_public, C19_keys_public; C19_legacy_sift documents the "
+                  "unrepaired D11 behaviour); deck FIFO (C19_deck_fifo), gulp ignores None (C19_gulp_ignores_none). "
+                  "Partial: spew returns None only when empty only while no None was pushed (C19_spew_none_iff_empty_partial; "
                   "counterexample C19_counterexample_push_none = D11e).")
     LEVEL_NOTE = ("Trusted: Lean kernel; axioms propext, Classical.choice, Quot.sound; the hand transcription of "
                   "Share/Data/Deck validated by the correspondence runs; CPython's attribute lookup order and the "
@@ -171,11 +168,7 @@ class CHECK(core.Check):
 
     # ---- implementation side
     def _show_val(self, v, key=None, sh=None):
-        """canonical value; a value read under a class-attribute name that is not in the instance dict is
-        the class attribute object itself (method, docstring, module name): shown as `a<name>`"""
-        if key is not None and sh is not None and key in CLASS_ATTRS and key != "__weakref__" \
-                and not dict.__contains__(sh._data.__dict__, key):
-            return "a" + hx(key)
+        """canonical value (None / int / str; anything else, e.g. a bound method of Data, by its type name)"""
         if v is None:
             return "n"
         if isinstance(v, bool):
@@ -331,8 +324,8 @@ class CHECK(core.Check):
 
     def _oracle2(self, case, out):
         """(kind, message): kind None = holds; "other" = a failure that is not of the two recorded kinds
-        (returned as soon as it is met); "known" = only failures of the recorded kinds D11 (a class
-        attribute name of Data treated as a field) / D11e (spew hands back a None that was pushed) were met.
+        (returned as soon as it is met); "known" = only failures of the recorded kind D11e (spew hands back a
+        None that was pushed) were met.
         After a failure of a recorded kind the reference carries on, so that anything else in the same
         history is still found."""
         ops = case["ops"]
@@ -351,7 +344,7 @@ class CHECK(core.Check):
             return None if att is None else clocks[att]
 
         def is_ca(kk):
-            return kk in CLASS_ATTRS or kk == "__dict__"
+            return False       # D11 is repaired: a class attribute name of Data is just a non-public name
 
         for i, (op, line) in enumerate(zip(ops, out)):
             parts = line.split(" | ")
@@ -559,9 +552,9 @@ class CHECK(core.Check):
         key = core.case_key(case)
         cache = self.__dict__.setdefault("_region_cache", {})
         if key not in cache:
-            reqs = self.requests(case) + ["region D11", "region D11e"]
+            reqs = self.requests(case) + ["region D11e"]
             rep = core.Driver(self.ENGINE).run(reqs)
-            cache[key] = {"D11": rep[-2] == "true", "D11e": rep[-1] == "true"}
+            cache[key] = {"D11e": rep[-1] == "true"}
         return cache[key].get(finding["id"], False)
 
     # ---- statistics
